@@ -167,12 +167,12 @@ def msgDelayReq (d : DefaultDS) (pid : PortId) (seq minor : Nat) : Msg :=
   { header := { baseHeader d pid seq minor with logInterval := 0x7f }, body := .delayReq ⟨0, 0⟩, suffix := [] }
 
 /-- `Message::delay_resp`: request header reused; correction = request correction + sub-ns of the
-receive time (an `I48F16` addition that can overflow) -/
+receive time (an `I48F16` addition, saturating since the `fix:` commit) -/
 def msgDelayResp (req : Header) (pid : PortId) (delayLog : Int) (ts : Nat) : R Msg := do
-  let corr ← liftOv (tivAdd req.correction (timeSubnano ts))
   let w ← liftOv (timeToWire ts)
   let fl : Flags := { req.flags with twoStep := false }
-  let h : Header := { req with flags := fl, src := pid, correction := corr, logInterval := delayLog }
+  let h : Header := { req with flags := fl, src := pid, correction := clampI64 (req.correction + timeSubnano ts),
+                               logInterval := delayLog }
   .ok { header := h, body := .delayResp w req.src, suffix := [] }
 
 def msgPdelayReq (d : DefaultDS) (pid : PortId) (seq minor : Nat) : Msg :=
@@ -531,14 +531,22 @@ def chunks8 : Nat → List UInt8 → List Nat
 
 def pathOf (v : List UInt8) : List Nat := chunks8 v.length v
 
-/-- table-33 update from the parent's Announce (decision code S1) -/
-def InstState.applyParent (s : InstState) (a : Ann) : R InstState := do
-  if a.body.steps + 1 ≥ 65536 then .error .overflow else
-  .ok { s with stepsRemoved := a.body.steps + 1,
-               parent := { parentPort := a.hdr.src, gmIdentity := a.body.gm,
-                           gmQuality := ⟨a.body.clockClass, a.body.accuracy, a.body.variance⟩,
-                           gmP1 := a.body.p1, gmP2 := a.body.p2 },
-               tp := annTimeProps a }
+/-- table-33 update from an Announce of the parent, with the given new stepsRemoved -/
+def InstState.withParent (s : InstState) (a : Ann) (steps : Nat) : InstState :=
+  { s with stepsRemoved := steps,
+           parent := { parentPort := a.hdr.src, gmIdentity := a.body.gm,
+                       gmQuality := ⟨a.body.clockClass, a.body.accuracy, a.body.variance⟩,
+                       gmP1 := a.body.p1, gmP2 := a.body.p2 },
+           tp := annTimeProps a }
+
+/-- `handle_announce` (Slave port, Announce of the parent): stepsRemoved + 1, saturating since the `fix:` commit
+(before: `u16` overflow for 65535) -/
+def InstState.applyParent (s : InstState) (a : Ann) : R InstState :=
+  .ok (s.withParent a (if a.body.steps + 1 ≥ 65536 then 65535 else a.body.steps + 1))
+
+/-- `set_recommended_state`, decision S1: plain `+ 1` (the Announce is a qualified one: stepsRemoved < 255, C06) -/
+def InstState.applyParentS1 (s : InstState) (a : Ann) : R InstState :=
+  if a.body.steps + 1 ≥ 65536 then .error .overflow else .ok (s.withParent a (a.body.steps + 1))
 
 /-- the PATH_TRACE TLV `handle_announce` looks at (path trace option on) -/
 def pathTlvOf (s : InstState) (m : Msg) : Option Tlv :=
@@ -550,10 +558,11 @@ def loopsBack (s : InstState) (pt : Option Tlv) : Bool :=
   | some t => (pathOf t.value).contains s.dflt.clockIdentity
   | none => false
 
-/-- store the received path (`ArrayVec` of 128 identities: a longer one panics) -/
+/-- store the received path (`ArrayVec` of 128 identities: since the `fix:` commit a longer one is cut off, before
+it panicked) -/
 def storePath (s1 : InstState) (pt : Option Tlv) : R InstState :=
   match pt with
-  | some t => if (pathOf t.value).length > PATH_TRACE_CAP then .error .always else .ok { s1 with pathTrace := pathOf t.value }
+  | some t => .ok { s1 with pathTrace := (pathOf t.value).take PATH_TRACE_CAP }
   | none => .ok s1
 
 /-- the data set half of `handle_announce`: a Slave port that hears its parent applies table 33 and the
@@ -691,14 +700,13 @@ def Port.setRecommendedState (p : Port) (r : Recommended) (s : InstState) :
   let (p, ev, pend) ← p.setRecommendedPortState r s.dflt
   match r with
   | .m1 d | .m2 d =>
-    if s.dflt.slaveOnly then .error .assertDbg else
     .ok (p, { s with stepsRemoved := 0,
                      parent := { parentPort := ⟨d.clockIdentity, 0⟩, gmIdentity := d.clockIdentity,
                                  gmQuality := d.quality, gmP1 := d.p1, gmP2 := d.p2 },
                      tp := defaultTimeProps, pathTrace := [] }, ev, pend)
   | .m3 _ | .p1 _ | .p2 _ => .ok (p, s, ev, pend)
   | .s1 a =>
-    let s1 ← s.applyParent a
+    let s1 ← s.applyParentS1 a
     .ok (p, s1, ev ++ [.props s1.tp], pend)
 
 /-- ageing of the multiport-disable mark: dropped once it is an announce interval old -/
